@@ -506,6 +506,29 @@ theorem yield_alive_leave_both {σ : Store} (wf : WF σ) {s s' : LB.St} {φ : Fs
   obtain ⟨x, hx⟩ := key
   exact ⟨x, hx, wf.af _ _ hx, wf.reach _ (by rw [wf.af _ _ hx]; simp)⟩
 
+/-- **leave_rewalk_children** (`replaced_children_next` for `on='leave'` under `send(True)`). When a node's leaving
+yield is answered with `send(True)`, resuming re-reads `fst_.a`: the children pushed for the repeat walk are those of
+the AST the FST carries NOW (the new children if the consumer replaced the node in that step), on top of a leaving
+entry for the node itself, on top of the untouched stack. -/
+theorem leave_rewalk_children {σ : Store} {back : Bool} {g : LB.Gen} {φ : FstId} {x : AstId}
+    (hs : g.ctl = .yLeave φ true) (hx : σ.a φ = some x) :
+    LB.stepLeave σ back g =
+      ({ g with ctl := .running, stack := LB.items back (σ.kids x) ++ .fst φ :: g.stack }, none) := by
+  simp [LB.stepLeave, hs, hx]
+
+/-- the same for `on='both'` (generator with `recurse` on): the node is entered again, on its current AST -/
+theorem both_rewalk_reenters {σ : Store} {back : Bool} {g : LB.Gen} {φ : FstId} {x : AstId}
+    (hs : g.ctl = .yLeave φ true) (hx : σ.a φ = some x) (hr : g.recurse = true) (hv : σ.vis x = true) :
+    (LB.stepBoth σ back g).ev = some (φ, false) := by
+  have hc : σ.checkAll φ = true := by simp [Store.checkAll, hx, hv]
+  simp [LB.stepBoth, hs, hx, hr, LB.bothEnterPart, hc]
+
+/-- a removed node answered with `send(True)` is not walked again -/
+theorem leave_rewalk_removed {σ : Store} {back : Bool} {g : LB.Gen} {φ : FstId}
+    (hs : g.ctl = .yLeave φ true) (hx : σ.a φ = none) :
+    LB.stepLeave σ back g = ({ g with ctl := .running }, none) := by
+  simp [LB.stepLeave, hs, hx]
+
 /-! ## Non-vacuity: a concrete tree, the walk of `[[a, b], c]` with the consumer replacing `[a, b]` by `[x, y]` when it
 is yielded, then removing `c`'s predecessor… run through the executable machine. -/
 
@@ -554,5 +577,23 @@ example : (next ex0.store 10 (send false exS2)).2 = some 4 := by decide
 def exR : St := ((next ex0.store 10 ((next ex0.store 10 (init 0 true false false)).1)).1)
 example : (next ex0.store 10 exR).2 = some 4 := by decide
 example : (next ex0.store 10 (send true exR)).2 = some 2 := by decide
+
+/-! ### The walk root is the exception (finding C15-F1): its restart after `send(True)` uses the AST read before the
+yield.  Full statement that fails: "after replacing the walk root in its leaving yield and `send(True)`, the new
+children are walked".  Witness: `[a]` (ids 0 = list, 1 = a) walked with `on='leave'`; at the root's yield the consumer
+replaces it by `[x, y]` (fresh ids 2, 3, 4; FST 0 kept) and sends `True`. -/
+
+def rw0 : CStore := { tree := .mk 0 0 1 true [.mk 1 1 2 true []], next := 2 }
+def rw1 : CStore := rw0.apply (.replace 0 (.mk 1 true [.mk 2 true [], .mk 2 true []]))
+/-- suspended at the root's leaving yield (after the yield of `a`) -/
+def rwS : LB.St := (LB.next rw0.store 20 (LB.next rw0.store 20 (LB.init true 0 true true false)).1).1
+
+example : (LB.next rw0.store 20 (LB.next rw0.store 20 (LB.init true 0 true true false)).1).2 = some (0, true) := by decide
+example : rw1.store.kids 2 = [3, 4] ∧ rw1.store.a 0 = some 2 := by decide
+
+/-- the next yield is the root again, and then the walk is over: the new children 3, 4 are never yielded -/
+theorem root_rewalk_new_children_false :
+    (LB.next rw1.store 20 (LB.send true rwS)).2 = some (0, true) ∧
+    (LB.next rw1.store 20 (LB.next rw1.store 20 (LB.send true rwS)).1).2 = none := by decide
 
 end Pfst.C15
